@@ -1,5 +1,6 @@
 // C04: Sma, Ema (default alpha) and Alma are genuine averages of the values they average.
-use crate::props::c02_history::*;
+use crate::props::c00_window::*;
+use crate::props::c02_h_sma::*;
 
 // ---------- arithmetic mean of a non-empty sequence ----------
 pub proof fn lemma_sum_bounds(w: Seq<T>)
